@@ -57,6 +57,22 @@ def r1_descriptor(chk):
     stores += [c for c in walk_no_nested(g.node) if isinstance(c, ast.Call) and isinstance(c.func, ast.Attribute) and c.func.attr in ("update", "setdefault", "__setattr__", "clear", "pop")
                and norm(c.func.value).split(".")[0] in aliases]
     stores += [c for c in walk_no_nested(g.node) if isinstance(c, ast.Call) and call_name(c) == "setattr" and c.args and norm(c.args[0]) in aliases]
+    # a container taken out of the shared object (or out of a shallow copy of it: copy(self) shares every attribute value) and then filled in place
+    shallow = {n for n, vals in asg0.items() if any(isinstance(v, ast.Call) and call_name(v) in ("copy", "copy.copy") and v.args and norm(v.args[0]) in aliases for v in vals)}
+
+    def shared_value(v):
+        if isinstance(v, ast.BoolOp) and isinstance(v.op, ast.Or):
+            return shared_value(v.values[0])
+        return isinstance(v, ast.Attribute) and isinstance(v.value, ast.Name) and v.value.id in aliases | shallow
+
+    taken = {n for n, vals in asg0.items() if any(isinstance(v, ast.AST) and shared_value(v) for v in vals)}
+    for c in walk_no_nested(g.node):
+        if isinstance(c, ast.Call) and isinstance(c.func, ast.Attribute) and c.func.attr in ("update", "setdefault", "clear", "pop", "popitem", "__setitem__", "append", "extend") \
+                and isinstance(c.func.value, ast.Name) and c.func.value.id in taken:
+            stores.append(c)
+    for s_ in walk_no_nested(g.node):
+        if isinstance(s_, (ast.Assign, ast.AugAssign)) and any(p.split("[")[0] in taken and "[" in p for p in stored_paths(s_)):
+            stores.append(s_)
     rets = [s for s in walk_no_nested(g.node) if isinstance(s, ast.Return)]
     chk.require(rets, "Job.__get__ has no return")
     key = f"{g.key}:no-per-driver-state-on-shared-descriptor"
@@ -80,9 +96,37 @@ def r1_descriptor(chk):
     chk.decide(fresh_ok and (need <= bound_sets or norm(rets[0].value) == "self"), "C17.R1", key, g.where(),
                f"settings are bound on a fresh object ({sorted(bound_sets)})", f"Job.__get__ returns `{norm(rets[0].value)}` which is neither self-without-stores nor a fresh copy carrying {sorted(need)}")
     # each setting consults the driver instance (obj) - not only the class
+    from ..canon import Env
+
+    genv = Env(g.node)
+
+    def flat_or(e):
+        if isinstance(e, ast.BoolOp) and isinstance(e.op, ast.Or):
+            out = []
+            for v in e.values:
+                out.extend(flat_or(v))
+            return out
+        return [e]
+
+    def bound_value(st_):
+        """what is stored, with naming locals spelled out; plus everything that fills a container local on the way (`d.setdefault(..)` in
+        a loop over the instance's mapping)"""
+        v = genv.expand(st_.value, at=st_)
+        texts = [norm(v)]
+        for nm in {x.id for x in ast.walk(st_.value) if isinstance(x, ast.Name)}:
+            for w in walk_no_nested(g.node):
+                if isinstance(w, ast.Assign) and any(isinstance(t, ast.Name) and t.id == nm for t in w.targets):
+                    texts.append(norm(w.value))
+                if isinstance(w, ast.For) and any(isinstance(c, ast.Call) and isinstance(c.func, ast.Attribute) and norm(c.func.value) == nm and c.func.attr in ("setdefault", "update", "__setitem__")
+                                                  for c in ast.walk(w)):
+                    texts.append(norm(w.iter))
+                if isinstance(w, ast.Expr) and isinstance(w.value, ast.Call) and isinstance(w.value.func, ast.Attribute) and norm(w.value.func.value) == nm and w.value.func.attr == "update":
+                    texts.append(norm(w.value))
+        return v, texts
+
     for attr in ("executable", "nprocs", "envars"):
         st = [s for s in walk_no_nested(g.node) if isinstance(s, ast.Assign) and any(p.endswith("." + attr) for p in stored_paths(s))]
-        ok = bool(st) and f"getattr(obj, '{attr}', None)" in norm(st[0].value)
+        ok = bool(st) and any(f"getattr(obj, '{attr}', None)" in t for t in bound_value(st[0])[1])
         chk.decide(ok, "C17.R1", f"{g.key}:binds:{attr}", g.where(st[0] if st else None), f"{attr} consults the driver instance",
                    f"the bound job's `{attr}` does not consult the driver instance (obj): per-instance settings are ignored")
 
@@ -92,9 +136,12 @@ def r1_descriptor(chk):
     drv = prog.cls("molli.pipeline.driver:DriverBase")
     for attr in ("executable", "nprocs", "memory"):
         st = [s for s in walk_no_nested(g.node) if isinstance(s, ast.Assign) and any(p.endswith("." + attr) for p in stored_paths(s))]
-        if not st or not isinstance(st[0].value, ast.BoolOp) or not isinstance(st[0].value.op, ast.Or):
+        if not st:
             continue
-        order = [("class" if norm(v).startswith("getattr(objtype") else "instance" if norm(v).startswith("getattr(obj,") else None) for v in st[0].value.values]
+        bv = bound_value(st[0])[0]
+        if not isinstance(bv, ast.BoolOp) or not isinstance(bv.op, ast.Or):
+            continue
+        order = [("class" if norm(v).startswith("getattr(objtype") else "instance" if norm(v).startswith("getattr(obj,") else None) for v in flat_or(bv)]
         order = [o for o in order if o]
         if order[:1] != ["class"]:
             continue
@@ -159,16 +206,180 @@ def r2_runner(chk, rl):
     no_other_exit = not any(isinstance(x, (ast.Continue,)) for b in l.body for x in walk_no_nested(b))
     chk.decide(ok and no_other_exit, "C17.R2", f"{rl.key}:stops-at-first-failure", rl.where(where), "non-zero return code -> fail = i; break",
                "the command loop is not left at the first non-zero return code (later commands still run, or the failure position is not recorded)")
-    # captured output: same names written and read
-    opens = [c for c in walk_no_nested(src) if isinstance(c, ast.Call) and call_name(c) == "open" and c.args and isinstance(c.args[0], ast.JoinedStr)]
-    wr = sorted({norm(c.args[0]) for c in opens if len(c.args) > 1 and "w" in norm(c.args[1])})
-    rd = sorted({norm(c.args[0]) for c in opens if len(c.args) > 1 and "r" in norm(c.args[1])})
-    chk.decide(wr == rd and len(wr) == 2, "C17.R2", f"{rl.key}:captures-read-back-under-same-name", rl.where(), f"written {wr} == read {rd}",
-               f"capture files written as {wr} but read back as {rd}")
-    outs = [s for s in walk_no_nested(src) if isinstance(s, ast.Assign) and isinstance(s.targets[0], ast.Subscript) and norm(s.targets[0].value) in ("stdouts", "stderrs")]
-    pairs = sorted((norm(s.targets[0].value), norm(s.value)) for s in outs)
-    chk.decide(pairs == [("stderrs", "stderr.read()"), ("stdouts", "stdout.read()")], "C17.R2", f"{rl.key}:stdout-stderr-not-crossed", rl.where(), str(pairs),
-               f"captured streams are stored as {pairs}")
+    # captured output: the file a named command's stdout / stderr goes to is the file read back into stdouts / stderrs
+    def tmpl(e):
+        """path templates an expression can stand for ('{name}.out'), '<devnull>' for the null device"""
+        if isinstance(e, ast.JoinedStr):
+            return {"".join(v.value if isinstance(v, ast.Constant) else "{" + norm(v.value) + "}" for v in e.values)}
+        if isinstance(e, ast.Constant) and isinstance(e.value, str):
+            return {e.value}
+        if norm(e) in ("os.devnull", "DEVNULL", "subprocess.DEVNULL"):
+            return {"<devnull>"}
+        if isinstance(e, ast.IfExp):
+            return tmpl(e.body) | tmpl(e.orelse)
+        if isinstance(e, ast.Call) and call_name(e) in ("Path", "str", "os.fspath") and len(e.args) == 1:
+            return tmpl(e.args[0])
+        if isinstance(e, ast.BinOp) and isinstance(e.op, ast.Add):
+            return {a + b for a in tmpl(e.left) for b in tmpl(e.right)} or set()
+        if isinstance(e, ast.Name):
+            out = set()
+            for v in asg.get(e.id, []):
+                if isinstance(v, tuple) and v[0] == "unpack":
+                    out |= elem(v[1], v[2])
+                elif isinstance(v, ast.AST):
+                    out |= tmpl(v)
+            return out
+        return set()
+
+    def elem(e, k):
+        if isinstance(e, ast.IfExp):
+            return elem(e.body, k) | elem(e.orelse, k)
+        if isinstance(e, ast.Tuple) and k < len(e.elts):
+            return tmpl(e.elts[k])
+        if isinstance(e, ast.BinOp) and isinstance(e.op, ast.Mult) and isinstance(e.left, ast.Tuple) and len(e.left.elts) == 1:
+            return tmpl(e.left.elts[0])
+        return set()
+
+    def open_call(e):
+        """the open(...) call behind an expression: open(..), stack.enter_context(open(..))"""
+        if isinstance(e, ast.Call) and call_name(e) == "open" and e.args:
+            return e
+        if isinstance(e, ast.Call) and isinstance(e.func, ast.Attribute) and e.func.attr == "enter_context" and len(e.args) == 1:
+            return open_call(e.args[0])
+        return None
+
+    def mode_of(c):
+        return norm(c.args[1]) if len(c.args) > 1 else (norm(kwarg(c, "mode")) if kwarg(c, "mode") is not None else "'r'")
+
+    binds = {}   # file variable -> [(templates, mode, region that the binding is good for)]
+    for w in walk_no_nested(src):
+        if isinstance(w, ast.With):
+            for it_ in w.items:
+                oc = open_call(it_.context_expr)
+                if oc is not None and isinstance(it_.optional_vars, ast.Name):
+                    binds.setdefault(it_.optional_vars.id, []).append((tmpl(oc.args[0]), mode_of(oc), w))
+        if isinstance(w, ast.Assign) and all(isinstance(t, ast.Name) for t in w.targets):
+            oc = open_call(w.value)
+            region = next((lp for lp in walk_no_nested(src) if isinstance(lp, (ast.For, ast.While)) and any(x is w for x in ast.walk(lp))), src)
+            for t in w.targets:
+                if oc is not None:
+                    binds.setdefault(t.id, []).append((tmpl(oc.args[0]), mode_of(oc), region))
+                elif tmpl(w.value) == {"<devnull>"}:
+                    binds.setdefault(t.id, []).append(({"<devnull>"}, "'w'", region))
+
+    def file_of(name, use):
+        cands = [b for b in binds.get(name, []) if any(x is use for x in ast.walk(b[2]))]
+        inner = [b for b in cands if isinstance(b[2], ast.With)] or cands
+        return inner
+
+    written = {"stdout": set(), "stderr": set()}
+    for c in runs:
+        for kw_ in ("stdout", "stderr"):
+            v = kwarg(c, kw_)
+            if v is None:
+                continue
+            if isinstance(v, ast.Name) and v.id in binds:
+                for t_, mode, _ in file_of(v.id, c):
+                    if "w" in mode or "a" in mode:
+                        written[kw_] |= t_
+            else:
+                written[kw_] |= tmpl(v)
+    read = {"stdouts": set(), "stderrs": set()}
+
+    def read_src(v):
+        """templates of the file whose text the expression reads"""
+        if isinstance(v, ast.Call) and isinstance(v.func, ast.Attribute) and v.func.attr in ("read", "read_text"):
+            b = v.func.value
+            if isinstance(b, ast.Name) and b.id in binds:
+                out = set()
+                for t_, mode, _ in file_of(b.id, v):
+                    if "w" not in mode:
+                        out |= t_
+                return out
+            if isinstance(b, ast.Call) and call_name(b) in ("Path", "open") and b.args:
+                return tmpl(b.args[0])
+        return set()
+
+    for s_ in walk_no_nested(src):
+        if isinstance(s_, ast.Assign) and isinstance(s_.targets[0], ast.Subscript) and norm(s_.targets[0].value) in read:
+            read[norm(s_.targets[0].value)] |= read_src(s_.value)
+        if isinstance(s_, ast.Assign) and isinstance(s_.targets[0], ast.Name) and s_.targets[0].id in read and isinstance(s_.value, ast.DictComp):
+            read[s_.targets[0].id] |= read_src(s_.value.value)
+    w_out, w_err = written["stdout"] - {"<devnull>"}, written["stderr"] - {"<devnull>"}
+    chk.require(w_out and w_err and read["stdouts"] and read["stderrs"], "run_local: where the captured output of a named command is written and read back was not found")
+    chk.decide(w_out | w_err == read["stdouts"] | read["stderrs"] and len(w_out) == 1 and len(w_err) == 1 and w_out != w_err, "C17.R2", f"{rl.key}:captures-read-back-under-same-name", rl.where(),
+               f"written {sorted(w_out | w_err)} == read {sorted(read['stdouts'] | read['stderrs'])}", f"capture files written as {sorted(w_out | w_err)} but read back as {sorted(read['stdouts'] | read['stderrs'])}")
+    chk.decide(w_out == read["stdouts"] and w_err == read["stderrs"], "C17.R2", f"{rl.key}:stdout-stderr-not-crossed", rl.where(),
+               f"stdout -> {sorted(w_out)} -> stdouts, stderr -> {sorted(w_err)} -> stderrs",
+               f"the child's stdout goes to {sorted(w_out)} and stderr to {sorted(w_err)}, but stdouts is read from {sorted(read['stdouts'])} and stderrs from {sorted(read['stderrs'])}")
+    # the captures that are read back are those of exactly the commands that were started - the failing one included, none that never ran
+    from ..canon import Env as _Env
+    from ..cfg import CFG as _CFG
+
+    key_cov = f"{rl.key}:captures-of-exactly-the-commands-that-ran"
+    read_stmts = [s_ for s_ in walk_no_nested(src) if isinstance(s_, ast.Assign) and (
+        (isinstance(s_.targets[0], ast.Subscript) and norm(s_.targets[0].value) in read) or (isinstance(s_.targets[0], ast.Name) and s_.targets[0].id in read and isinstance(s_.value, ast.DictComp)))]
+    in_loop = [s_ for s_ in read_stmts if any(x is s_ for x in ast.walk(l))]
+    named_runs = [c for c in runs if any(t_ - {"<devnull>"} for kw_ in ("stdout",) for t_ in ([set().union(*[b[0] for b in file_of(kwarg(c, kw_).id, c)])] if isinstance(kwarg(c, kw_), ast.Name) and kwarg(c, kw_).id in binds else [tmpl(kwarg(c, kw_))] if kwarg(c, kw_) is not None else []))]
+    chk.require(named_runs, "run_local: the run site of a named command was not found")
+    cfg_r = _CFG(src)
+
+    def nid(stmt_or_expr):
+        return {n_.id for n_ in cfg_r.nodes if n_.ast is not None and n_.kind in ("stmt", "with", "test", "for") and any(x is stmt_or_expr for x in ast.walk(n_.ast if n_.kind == "stmt" else (n_.ast.items[0].context_expr if n_.kind == "with" else n_.ast)))}
+
+    def run_nodes():
+        out = set()
+        for n_ in cfg_r.nodes:
+            if n_.kind == "stmt" and any(x is c for c in named_runs for x in ast.walk(n_.ast)):
+                out.add(n_.id)
+        return out
+
+    rn = run_nodes()
+    problems = []
+    if in_loop:
+        # read inside the command loop: every way on from the run of a named command passes the read-back, also the way out on failure
+        rd = {n_.id for n_ in cfg_r.nodes if n_.kind == "stmt" and any(n_.ast is s_ for s_ in in_loop)}
+        hdr = {n_.id for n_ in cfg_r.nodes if n_.ast is l and n_.kind in ("for", "test")}
+        after = {n_.id for n_ in cfg_r.nodes if n_.kind == "stmt" and n_.ast is not None and not any(x is n_.ast for x in ast.walk(l)) and getattr(n_.ast, "lineno", 0) > l.lineno}
+        pth = cfg_r.path(list(rn), hdr | after | {cfg_r.exit}, avoid=rd, edge_ok=lambda a, b, lab: lab not in ("exc", "raise", "except"))
+        if pth is not None:
+            problems.append("after a named command has run there is a way on (" + cfg_r.describe_path(pth)[:120] + ") that skips reading its captured output back: "
+                            "the command that fails is exactly the one whose stdout / stderr is missing from the JobOutput")
+    else:
+        srcs = []
+        for s_ in read_stmts:
+            if isinstance(s_.value, ast.DictComp) and isinstance(s_.targets[0], ast.Name):
+                srcs.append((s_, s_.value.generators[0].iter))
+            else:
+                lp = [f_ for f_ in walk_no_nested(src) if isinstance(f_, ast.For) and any(x is s_ for x in ast.walk(f_))]
+                if lp:
+                    srcs.append((s_, lp[-1].iter))
+        chk.require(srcs, "run_local: the loop that reads the captures back was not found")
+        env_r = _Env(src)
+        for s_, it_ in srcs[:1]:
+            e = env_r.expand(it_, keep={"fail", "job"}, at=s_)
+            txt = norm(e)
+            coll = it_.id if isinstance(it_, ast.Name) else None
+            apps = [c for c in walk_no_nested(l) if isinstance(c, ast.Call) and isinstance(c.func, ast.Attribute) and c.func.attr == "append" and coll and norm(c.func.value) == coll]
+            if apps:
+                from ..canon import path_conditions as _pc
+
+                an = {n_.id for n_ in cfg_r.nodes if n_.kind == "stmt" and any(x is a_ for a_ in apps for x in ast.walk(n_.ast))}
+                hdr = [n_.id for n_ in cfg_r.nodes if n_.ast is l and n_.kind in ("for", "test")]
+                # statements that only run for an unnamed command are not on the way of a named one
+                nmvar = norm(l.target.elts[-1].elts[-1]) if isinstance(l.target, ast.Tuple) and isinstance(l.target.elts[-1], ast.Tuple) else (norm(l.target.elts[-1]) if isinstance(l.target, ast.Tuple) else "name")
+                unnamed = {n_.id for n_ in cfg_r.nodes if n_.kind == "stmt" and n_.ast is not None and any(x is n_.ast for x in ast.walk(l))
+                           and any(norm(c_) in (f"{nmvar} is None", f"not {nmvar}") for c_ in _pc(src, n_.ast))}
+                if cfg_r.path(cfg_r.succs(hdr[0]) if hdr else [cfg_r.entry], rn - unnamed, avoid=an | unnamed, edge_ok=lambda a, b, lab: lab not in ("exc", "raise", "except")) is not None:
+                    problems.append(f"a named command can run without its name being recorded in `{coll}`: its captured output is never read back")
+            elif "job.commands" in txt and "fail" in names_in(e) and "[:fail + 1]" in txt:
+                pass  # the commands up to and including the failing one
+            elif "job.commands" in txt:
+                problems.append(f"the captures are read back for `{short(e, 60)}` - every named command of the job, whether it was started or not: when a command fails, the "
+                                "capture file of a later named command does not exist, reading it raises FileNotFoundError and the runner dies without writing its output file")
+            else:
+                raise AnalysisError(f"run_local: cannot tell which commands' captures `{short(e, 60)}` stands for")
+    chk.decide(not problems, "C17.R2", key_cov, rl.where(read_stmts[0] if read_stmts else l), "read back for every named command that was started, and for no other", "; ".join(problems))
     # return files
     rf = [x for x in asg.get("retfiles", []) if isinstance(x, ast.DictComp)]
     ok = len(rf) == 1 and "read_bytes()" in norm(rf[0].value) and "job.return_files" in norm(rf[0].generators[0].iter) and any("is_file" in norm(i) for i in rf[0].generators[0].ifs) \
